@@ -250,6 +250,16 @@ RECURSIVE KeepInRange(_, _)
 KeepInRange(shape, coos) ==
   IF coos = <<>> THEN <<>>
   ELSE (IF CooInRange(shape, Head(coos)) THEN <<Head(coos)>> ELSE <<>>) \o KeepInRange(shape, Tail(coos))
+\* The lattice may have any number of levels (nested dimension lists of any depth): `shape` is the
+\* sequence of its extents and the flat site number is the ROW-MAJOR position, i.e. the mixed-radix
+\* number whose digits are the coordinates.  Checked on lattices with unequal extents (incl. 1):
+ASSUME \A shape \in {<<3>>, <<2, 3>>, <<1, 2, 3>>, <<2, 1, 3>>, <<2, 3, 2>>, <<3, 2, 2>>, <<2, 1, 3, 2>>} :
+         \A x \in 0..(IProd(shape) - 1) :
+            /\ CooInRange(shape, Digits(x, shape))
+            /\ CooFlat(shape, Digits(x, shape)) = x
+            /\ CooFlat(shape, CooWrap(shape, [k \in 1..Len(shape) |-> Digits(x, shape)[k] - shape[k]])) = x
+ASSUME /\ CooFlat(<<2, 3, 2>>, <<1, 2, 1>>) = 11 /\ CooFlat(<<2, 1, 3, 2>>, <<1, 0, 2, 1>>) = 11
+       /\ KeepInRange(<<2, 3, 2>>, << <<0, 3, 0>>, <<1, 1, 0>>, <<2, 0, 0>> >>) = << <<1, 1, 0>> >>
 DimMapRejects(shape, coos, cyclic, trim) ==
   ~cyclic /\ ~trim /\ \E k \in 1..Len(coos) : ~CooInRange(shape, coos[k])
 DimMap(shape, coos, cyclic, trim) ==
